@@ -20,6 +20,7 @@
 #include "vh_listmode.h"
 #include "stir/VoxelsOnCartesianGrid.h"
 #include "stir/IndexRange3D.h"
+#include "stir/IndexRange2D.h"
 #include "stir/CartesianCoordinate3D.h"
 #include "stir/ProjDataInMemory.h"
 #include "stir/ProjDataInterfile.h"
@@ -40,6 +41,11 @@
 #include "stir/recon_buildblock/PoissonLogLikelihoodWithLinearModelForMeanAndListModeDataWithProjMatrixByBin.h"
 #include "stir/recon_buildblock/BinNormalisationFromProjData.h"
 #include "stir/scatter/SingleScatterSimulation.h"
+#include "stir/multiply_crystal_factors.h"
+#include "stir/ML_norm.h"
+#include "stir/TextWriter.h"
+#include "stir/info.h"
+#include "stir/warning.h"
 #include <omp.h>
 #include <atomic>
 #include <mutex>
@@ -696,11 +702,150 @@ static void wl_io(const Cfg& c) {
   });
 }
 
+// (g) other whole-data OpenMP loops on the same paths: BinNormalisation::apply/undo(ProjData&), multiply_crystal_factors,
+// ML_norm fan data <-> projection data, the reductions of Array (sum, find_max, find_min, sum_positive)
+static void wl_norm(const Cfg& c) {
+  shared_ptr<ExamInfo> ex = make_exam();
+  shared_ptr<ProjDataInfo> pdi = make_pdi(c);
+  vh::Rng rng(c.data_seed);
+  shared_ptr<ProjData> factors(new ProjDataInMemory(ex, pdi));
+  fill_projdata(*factors, rng, 2, 9, 0.25F);
+  BinNormalisationFromProjData norm(factors);
+  if (norm.set_up(ex, pdi) != Succeeded::yes) error("normalisation set_up failed");
+  shared_ptr<ProjData> src = make_projdata(c, ex, pdi, c.file_io);
+  fill_projdata(*src, rng, 0, 40, 0.5F);
+  Cfg cu = c; cu.maxT = 0; cu.tofMash = 0;
+  shared_ptr<ProjDataInfo> updi = make_pdi(cu, true);          // uncompressed, non-TOF: crystal factors and fan data
+  shared_ptr<ProjData> usrc(new ProjDataInMemory(ex, updi));
+  fill_projdata(*usrc, rng, 0, 40, 0.5F);
+  Array<2, float> eff(IndexRange2D(0, c.R - 1, 0, c.N - 1));
+  for (int r = 0; r < c.R; ++r) for (int d = 0; d < c.N; ++d) eff[r][d] = rng.range(2, 9) * 0.25F;
+  shared_ptr<Img> image = make_image(c, *pdi);
+  fill_image(*image, rng, -8, 8, 0.25F);
+  phases(c, [&] {
+    shared_ptr<ProjData> work = make_projdata(c, ex, pdi, c.file_io);      // fresh copy of the data
+    work->fill(*src);
+    mark("norm.apply");
+    norm.apply(*work);
+    mark("end");
+    out_fx("apply", pd_vals(*work));
+    mark("norm.undo");
+    norm.undo(*work);
+    norm.undo(*work);
+    mark("end");
+    out_fx("undo", pd_vals(*work));
+    shared_ptr<ProjData> cf(new ProjDataInMemory(ex, pdi));
+    mark("crystal.factors");
+    multiply_crystal_factors(*cf, eff, 0.5F);
+    mark("end");
+    out_fx("crystal", pd_vals(*cf));
+    const int fan = 2 * (updi->get_max_tangential_pos_num() < -updi->get_min_tangential_pos_num() ? updi->get_max_tangential_pos_num() : -updi->get_min_tangential_pos_num()) + 1;
+    FanProjData fd(c.R, c.N, c.R - 1, fan);
+    shared_ptr<ProjData> back(new ProjDataInMemory(ex, updi));
+    mark("fan");
+    make_fan_data_remove_gaps(fd, *usrc);
+    set_fan_data_add_gaps(*back, fd);
+    mark("end");
+    out_fx("fan", pd_vals(*back));
+    mark("array");
+    const std::vector<double> red = { image->sum(), image->sum_positive(), image->find_max(), image->find_min(), (double)image->size_all() / 64. };
+    mark("end");
+    out_fx("array", red);
+  });
+}
+
+// (h) beyond the numeric clause: messages and guards
+//  - info() / warning() from many threads through a harness-side aTextWriter that appends character by character to
+//    one buffer WITHOUT any protection of its own (as std::cout does): every message must arrive whole
+//  - a caller that is itself inside a parallel region: the library's "cannot be called inside a thread" guards
+//    (BackProjectorByBin::start_accumulating_in_new_target / get_output) must raise an error and leave the data alone
+struct CollectingWriter : public aTextWriter {
+  mutable std::vector<char> buf;
+  mutable volatile size_t pos = 0;
+  CollectingWriter() : buf(1 << 20, 0) {}
+  void write(const char* text) const override {
+    for (const char* p = text; *p; ++p) {
+      const size_t q = pos;
+      if (q + 1 >= buf.size()) return;
+      buf[q] = *p;
+      if ((q & 15) == 7) sched_yield();
+      pos = q + 1;
+    }
+  }
+};
+static void wl_sys(const Cfg& c) {
+  shared_ptr<ExamInfo> ex = make_exam();
+  shared_ptr<ProjDataInfo> pdi = make_pdi(c);
+  shared_ptr<Img> image = make_image(c, *pdi);
+  vh::Rng rng(c.data_seed);
+  fill_image(*image, rng, 1, 8, 0.25F);
+  shared_ptr<ProjMatrixByBin> pm = make_matrix(c);
+  shared_ptr<BackProjectorByBin> bp(new BackProjectorByBinUsingProjMatrixByBin(pm));
+  bp->set_up(pdi, image);
+  shared_ptr<ProjData> data(new ProjDataInMemory(ex, pdi));
+  fill_projdata(*data, rng, 0, 6, 0.5F);
+  const int nmsg = 120;
+  phases(c, [&] {
+    // ---- messages
+    CollectingWriter w;
+    TextWriterHandle h;
+    void* old_info = h.information_channel_ptr(); void* old_warn = h.warning_channel_ptr();
+    h.set_information_channel(&w); h.set_warning_channel(&w);
+    const int old_verbosity = Verbosity::get();
+    Verbosity::set(1);
+    mark("text");
+#pragma omp parallel for schedule(dynamic, 1)
+    for (int i = 0; i < nmsg; ++i) {
+      const std::string body = "<msg " + std::to_string(i) + " " + std::string(20 + (i * 7) % 60, (char)('a' + i % 26)) + " " + std::to_string(i) + ">";
+      if (i % 3 == 0) warning(body); else info(body);
+    }
+    mark("end");
+    Verbosity::set(old_verbosity);
+    h.set_information_channel((aTextWriter*)old_info); h.set_warning_channel((aTextWriter*)old_warn);
+    {
+      const std::string all(w.buf.data(), w.pos);
+      std::vector<long long> cnt;
+      size_t whole = 0;
+      for (int i = 0; i < nmsg; ++i) {
+        const std::string body = "<msg " + std::to_string(i) + " " + std::string(20 + (i * 7) % 60, (char)('a' + i % 26)) + " " + std::to_string(i) + ">";
+        long long n = 0;
+        for (size_t at = all.find(body); at != std::string::npos; at = all.find(body, at + 1)) ++n;
+        cnt.push_back(n);
+        whole += (size_t)n * body.size();
+      }
+      cnt.push_back((long long)all.size());        // nothing but the messages and their fixed decorations
+      out_int("messages", cnt);
+    }
+    // ---- guards: calls that must be refused inside a parallel region
+    shared_ptr<Img> target(image->get_empty_copy());
+    int team = 0, refused = 0, accepted = 0;
+    mark("guard");
+#pragma omp parallel
+    {
+#pragma omp single
+      team = omp_get_num_threads();
+      int r = 0, a = 0;
+      if (vh::threw([&] { bp->start_accumulating_in_new_target(); })) ++r; else ++a;
+#pragma omp barrier
+      if (vh::threw([&] { shared_ptr<Img> mine(image->get_empty_copy()); bp->get_output(*mine); })) ++r; else ++a;
+#pragma omp critical(C18_GUARD_COUNT)
+      { refused += r; accepted += a; }
+    }
+    mark("end");
+    put_out(vh::Json("Guard").num("ph", g_phase).num("team", team).num("refused", refused).num("accepted", accepted));
+    // ---- and the projector still works afterwards
+    mark("bck");
+    bp->back_project(*target, *data);
+    mark("end");
+    out_fx("bck.after", img_vals(*target));
+  });
+}
+
 static int objs_of(const std::string& wl) { return wl == "lazy" ? 1 : 0; }
 // number of cached matrix objects the calls can reach: the objective functions clone the back projector (and
 // with it the matrix) for the sensitivity when the data are TOF
 static int mats_of(const Cfg& c) {
-  if (c.wl == "rows" || c.wl == "proj") return 1;
+  if (c.wl == "rows" || c.wl == "proj" || c.wl == "sys") return 1;
   if (c.wl == "ll" || c.wl == "lm") return c.maxT > 0 ? 2 : 1;
   return 0;
 }
@@ -712,6 +857,8 @@ static void run_workload(const Cfg& c) {
   else if (c.wl == "lm") wl_lm(c);
   else if (c.wl == "scat") wl_scat(c);
   else if (c.wl == "io") wl_io(c);
+  else if (c.wl == "norm") wl_norm(c);
+  else if (c.wl == "sys") wl_sys(c);
 }
 
 // configuration of instance `inst` of workload `wl`
@@ -745,6 +892,8 @@ static Cfg make_cfg(const std::string& wl, long inst, long round, uint64_t seed,
     if (c.geom != "Cylindrical") c.N = rng.coin() ? 16 : 24;
     c.numTang = c.N - 1; }
   if (wl == "io") { c.file_io = true; }
+  if (wl == "norm") { c.N = rng.coin() ? 8 : 12; c.R = 2; c.mash = 1; c.span = 1; c.maxDelta = 1; c.numTang = std::max(3, c.N / 2 - 1) | 1; c.nxy = 2 * (c.N / 4) + 3; c.nz = 3; }
+  if (wl == "sys") { c.N = 12; c.R = 2; c.span = 1; c.maxDelta = 1; c.mash = 1; c.numTang = 5; c.nxy = 9; c.nz = 3; }
   if (wl == "scat") { c.N = rng.coin() ? 16 : 24; c.R = 2; c.numTang = 7; c.use_cache = rng.range(0, 3) != 0; c.maxT = 0; c.tofMash = 0; }
   if (wl == "lm") { c.mash = 1; c.span = 1; c.maxDelta = c.R - 1; c.file_io = false; c.subsets = ((c.N / 2) % 4 == 0 && rng.coin()) ? 2 : 1; if (c.N > 12 || c.R > 2) c.basic_only = true; }
   return c;
@@ -829,7 +978,7 @@ int main(int argc, char** argv) {
   const std::string path = argv[2], scratch = argv[3];
   const long ninst = atol(argv[4]);
   const int reps = atoi(argv[5]), size = atoi(argv[6]);
-  std::vector<std::string> wls = { "lazy", "rows", "proj", "ll", "lm", "scat", "io" };
+  std::vector<std::string> wls = { "lazy", "rows", "proj", "ll", "lm", "scat", "io", "norm", "sys" };
   if (argc > 7) {
     wls.clear();
     std::string s = argv[7], cur;
